@@ -302,6 +302,7 @@ type Pending struct {
 	Issued       time.Time
 	probes       int
 	firstProbeOK time.Time
+	overHTTP     bool
 }
 
 // mayBeDeclaredLost: three probes round-tripped after the call went quiet. A retry-tagged
@@ -310,6 +311,11 @@ type Pending struct {
 func (p *Pending) mayBeDeclaredLost(now time.Time) bool {
 	if p.probes < 3 {
 		return false
+	}
+	if p.overHTTP {
+		// no FIFO argument over parallel http connections: a later probe overtaking a response proves
+		// nothing, so this is a (generous) bound, not the clock-free rule
+		return now.Sub(p.firstProbeOK) >= 5*time.Second
 	}
 	if p.Kind != "retry" {
 		return true
@@ -329,7 +335,7 @@ func (p *Pending) Returned() bool {
 
 func (r *Rig) Go(c *RigClient, kind, tok string, plan Plan) *Pending {
 	ctx, cancel := context.WithCancel(context.Background())
-	p := &Pending{Kind: kind, Tok: tok, Plan: plan, Done: make(chan struct{}), Cancel: cancel, Issued: time.Now()}
+	p := &Pending{Kind: kind, Tok: tok, Plan: plan, Done: make(chan struct{}), Cancel: cancel, Issued: time.Now(), overHTTP: c.HTTP}
 	go func() {
 		defer close(p.Done)
 		defer func() {
